@@ -27,6 +27,7 @@ Ops  == INSTANCE ErgoOps WITH Dev <- {}
 Cn   == INSTANCE ErgoConc WITH Dev <- {}
 Tx   == INSTANCE ErgoText
 FS   == INSTANCE ErgoFS WITH Dev <- {}
+HL   == INSTANCE ErgoList WITH Dev <- {}
 
 Raw == ndJsonDeserialize(ObsFile)
 
@@ -39,6 +40,8 @@ NormObs(r) == [r EXCEPT !.pre = NormView(@), !.post = NormView(@), !.reply = Nor
                         !.after = [k \in DOMAIN @ |-> [@[k] EXCEPT !.view = NormView(@)]]]
 
 NormFS(f) == [f EXCEPT !.cfg = [@ EXCEPT !.stores = ToSet(@)]]
+
+NormHL(h) == [h EXCEPT !.view = NormView(@)]
 
 VARIABLES i, bad
 vars == <<i, bad>>
@@ -114,6 +117,7 @@ ClauseNames ==
     "C04_stays",
     "C03_readable", "C03_only_own_missing", "C03_continues", "C04_all_or_nothing",
     "C18_where", "C18_same_store", "C18_lands", "C18_reads_work", "C18_lock", "C18_init",
+    "C19_all_once", "C19_active_once", "C19_ready_exact", "C19_known_rows", "C19_tree", "C19_summary", "C19_empty", "C19_fits", "C19_idcol", "C19_utf8",
     "C17_roundtrip", "C17_stays", "C17_accepted",
     "R_step", "R_reply", "R_time", "R_preview", "R_faillog" }
 
@@ -192,6 +196,16 @@ Eval(n, o) ==
     [] n = "C18_reads_work" -> FS!C18_reads_work(NormFS(o.fs))
     [] n = "C18_lock" -> FS!C18_lock(NormFS(o.fs))
     [] n = "C18_init" -> FS!C18_init(NormFS(o.fs))
+    [] n = "C19_all_once" -> HL!C19_all_once(NormHL(o.hl))
+    [] n = "C19_active_once" -> HL!C19_active_once(NormHL(o.hl))
+    [] n = "C19_ready_exact" -> HL!C19_ready_exact(NormHL(o.hl))
+    [] n = "C19_known_rows" -> HL!C19_known_rows(NormHL(o.hl))
+    [] n = "C19_tree" -> HL!C19_tree(NormHL(o.hl))
+    [] n = "C19_summary" -> HL!C19_summary(NormHL(o.hl))
+    [] n = "C19_empty" -> HL!C19_empty(NormHL(o.hl))
+    [] n = "C19_fits" -> HL!C19_fits(NormHL(o.hl))
+    [] n = "C19_idcol" -> HL!C19_idcol(NormHL(o.hl))
+    [] n = "C19_utf8" -> HL!C19_utf8(NormHL(o.hl))
     [] n = "C17_roundtrip" -> Tx!C17_roundtrip(o.text)
     [] n = "C17_stays" -> Tx!C17_stays(o.text)
     [] n = "C17_accepted" -> Tx!C17_accepted(o.text)
@@ -211,7 +225,7 @@ ConcNames == {"C01_serial", "C01_no_double", "C01_outcomes", "C01_winner_holds",
               "C16_prune_truth",
               "C04_stays",
               "C03_readable", "C03_only_own_missing", "C03_continues", "C04_all_or_nothing"}
-TextNames == {"C17_roundtrip", "C17_stays", "C17_accepted", "C18_where", "C18_same_store", "C18_lands", "C18_reads_work", "C18_lock", "C18_init"}
+TextNames == {"C19_all_once", "C19_active_once", "C19_ready_exact", "C19_known_rows", "C19_tree", "C19_summary", "C19_empty", "C19_fits", "C19_idcol", "C19_utf8", "C17_roundtrip", "C17_stays", "C17_accepted", "C18_where", "C18_same_store", "C18_lands", "C18_reads_work", "C18_lock", "C18_init"}
 Wanted(r) == IF "only" \in DOMAIN r THEN ToSet(r.only) \cap ClauseNames ELSE ClauseNames \ (ConcNames \cup TextNames)
 
 Init == i = 0 /\ bad = {}
